@@ -24,6 +24,7 @@ def handleMonC11 : Toks → Option String :=
     let contract ← bool
     let evs ← list evP
     let outs ← list (list evP)
-    pure (Mon.monC11 contract (C11.SafeRun Norm.init evs) evs outs)) ts
+    -- the hypotheses of the C11 theorems (SafeRun for T0/T1/T3/T4, StartsRun in addition for T2)
+    pure (Mon.monC11 contract (C11.SafeRun Norm.init evs && C11.StartsRun Norm.init evs) evs outs)) ts
 
 end Cuke.Driver
